@@ -244,6 +244,10 @@ def oracle(ctx, classes):
         else:
             ml = pyamg.smoothed_aggregation_solver(A, max_coarse=2, keep=True)
         probs.append((nm, ml))
+    # the same operator stored in 2x2 blocks (BSR kernels have their own sweep logic inside the diagonal blocks)
+    np.random.seed(1)
+    Ab = sp.bsr_array(sp.csr_array(poisson((4, 4), format='csr')), blocksize=(2, 2))
+    probs.append(('real-bsr2', pyamg.smoothed_aggregation_solver(Ab, max_coarse=2, keep=True)))
     items = list(classes.items())
     if not (ctx.thorough or ctx.search) and len(items) > 120:
         keep = [it for it in items if len(it[1][0]) == 1]
@@ -253,8 +257,11 @@ def oracle(ctx, classes):
     for key, (pre, post) in items:
         for nm, ml in probs:
             names_used = {name_of(a) for a in pre + post}
-            if nm == 'complex' and names_used & {'cf_jacobi', 'fc_jacobi', 'cf_block_jacobi', 'fc_block_jacobi', 'strength_based_schwarz'}:
+            if nm in ('complex', 'real-bsr2') and names_used & {'cf_jacobi', 'fc_jacobi', 'cf_block_jacobi', 'fc_block_jacobi', 'strength_based_schwarz'}:
                 continue      # need a C/F splitting / strength matrix, which the SA hierarchy does not carry
+            if nm == 'real-bsr2' and not names_used & {'gauss_seidel', 'sor', 'block_gauss_seidel', 'block_jacobi', 'jacobi', 'gauss_seidel_ne',
+                                                       'gauss_seidel_nr', 'jacobi_ne', 'schwarz'}:
+                continue      # (only the relaxation methods that have BSR-specific code paths)
             case = dict(pre=core.jsonable(pre), post=core.jsonable(post), problem=nm)
             ctx.mark(case)
             try:
